@@ -83,6 +83,17 @@ def scenario(rng):
         else:
             steps.append({"op": "call", "i": 1, "api": rng.choice(["send", "event"]),
                           "ev": rng.choice(d["evlist"]), "gv": gen.rand_gv(rng)})
+    if rng.random() < 0.15:
+        # a model whose copies come back WITHOUT the state field: a copy of the machine is then a machine that starts anew
+        # (start_value or the initial state), whatever state the original is in
+        new["model_kind"] = "reset_on_copy"
+        scn["failAt"] = []          # (no crash points here: a copy that fails while it starts is a different story)
+        at = rng.randint(1, len(steps))
+        steps.insert(at, {"op": "call", "i": 1, "api": "copy", "j": 2, "how": rng.choice(["deepcopy", "pickle"]), "reset": True,
+                          "gv": gen.rand_gv(rng)})
+        for _ in range(rng.randint(1, 4)):
+            steps.insert(rng.randint(at + 1, len(steps)), {"op": "call", "i": 2, "api": rng.choice(["send", "event"]),
+                                                            "ev": rng.choice(d["evlist"]), "gv": gen.rand_gv(rng)})
     scn["steps"] = steps
     cb_writes(rng, scn, ids)
     return scn
